@@ -45,6 +45,7 @@ type rejectedProposal struct {
 
 type rt struct {
 	rejectedSeen []rejectedProposal // proposals the consumer rejected: the (Byzantine) peers vote for them all the same
+	lingerMs   int32
 	slowSeq    int64
 	rejectSalt int
 	rejecting int32 // some of the peers' proposals are rejected by the consumer (off during the final probes)
@@ -140,7 +141,9 @@ func (r *rt) gateF(ctx context.Context, kind string, h, v int, force bool) bool 
 		case <-bc.release:
 		case <-ctx.Done():
 			r.log("spi.done_seen", obj{"kind": kind, "h": h, "v": v, "call": id})
-			if linger := r.intn(8); linger > 4 { // a consumer that takes a moment to unwind after cancellation
+			if ms := atomic.LoadInt32(&r.lingerMs); ms > 0 {
+				time.Sleep(time.Duration(ms) * time.Millisecond)
+			} else if linger := r.intn(8); linger > 4 { // a consumer that takes a moment to unwind after cancellation
 				time.Sleep(time.Duration(linger) * time.Millisecond)
 			}
 		}
@@ -583,6 +586,7 @@ type rtParams struct {
 	realTimer bool
 	churn     int  // rounds of (election, commit in the next view) after the probe
 	panicSync bool // the cancellation comes from inside a consumer block whose Height() then panics in the main loop
+	waitBlocked   bool // from cancelAt on: cancel at the first moment the worker sits in a consumer call (odd runs: real timer)
 	staleAtCancel bool // from cancelAt on: as soon as a commit callback is blocked, the election of its (height, view) fires, the
 	// callback is released (the worker moves on: the trigger waiting in its slot is now stale) and Run's context is cancelled at once
 }
@@ -591,14 +595,16 @@ type rtParams struct {
 // on the main-loop goroutine that coincides with shutdown
 type panicBlock struct {
 	vBlock
-	once sync.Once
-	f    func()
+	once  sync.Once
+	f     func()
+	fired int32
 }
 
 func (b *panicBlock) Height() primitives.BlockHeight {
 	fire := false
 	b.once.Do(func() { fire = true })
 	if fire {
+		atomic.StoreInt32(&b.fired, 1)
 		b.f()
 		panic("verif: consumer block panics while the node is being shut down")
 	}
@@ -695,6 +701,9 @@ func runRuntime(p rtParams, runId int) []rtEvent {
 				c2, cancel2 := context.WithTimeout(ctx, 2*time.Second)
 				r.main.UpdateState(c2, pb, nil)
 				cancel2()
+				for k := 0; k < 100 && atomic.LoadInt32(&pb.fired) == 0; k++ { // the main loop has taken the block: give it the moment it needs to look at it
+					time.Sleep(500 * time.Microsecond)
+				}
 				pb.once.Do(func() {}) // the main loop never looked at it: plain cancellation
 			}
 			cancel()
@@ -784,6 +793,21 @@ func runRuntime(p rtParams, runId int) []rtEvent {
 				}
 				doCancel()
 				r.releaseEverything() // the worker comes back to its select with the cancellation and the stale trigger both ready
+				break
+			}
+		} else if p.waitBlocked && i >= p.cancelAt && p.cancelAt >= 0 && atomic.LoadInt32(&r.hung) == 0 {
+			// cancellation (plain, or through the panicking consumer block) at the first moment from cancelAt on at which the
+			// worker sits in a consumer call; the call takes 10 ms to unwind, longer than the real election timer needs to fire
+			r.gateMu.Lock()
+			nb := len(r.blocked)
+			for _, x := range r.blocked { // worst-case consumer: from now on the call waits for its context only
+				x.untilCtx = true
+			}
+			r.gateMu.Unlock()
+			if nb > 0 {
+				atomic.StoreInt32(&r.lingerMs, 10)
+				r.log("driver.cancel_while_blocked", obj{"blocked": nb})
+				doCancel()
 				break
 			}
 		} else if i == p.cancelAt || atomic.LoadInt32(&r.hung) != 0 { // an API call that blocked has been reported: nothing more to learn from this run
@@ -993,9 +1017,16 @@ func cmdRuntime(args []string) int {
 		}
 		rnd := newRand(*seed*7919 + int64(i))
 		p := rtParams{seed: *seed*7919 + int64(i), ops: *ops, cancelAt: -1, garbage: i%2 == 0, realTimer: i%2 == 1, churn: 15}
+		if i%3 == 1 && i%2 == 0 {
+			p.cancelAt = rnd.Intn(*ops) // plain cancellation at a random point of the run
+		}
 		if i%3 == 0 {
 			p.cancelAt = rnd.Intn(*ops) // cancellation injected at a random point of the run
 			p.panicSync = i%4 == 1
+			p.waitBlocked = i%2 == 1
+			if p.waitBlocked {
+				p.cancelAt = rnd.Intn(*ops / 2)
+			}
 			p.staleAtCancel = i%2 == 0 // (even run index: the fake scheduler, whose elections the driver can fire at will)
 			if p.staleAtCancel {
 				p.cancelAt = rnd.Intn(*ops / 2)
